@@ -462,6 +462,68 @@ pub mod observe {
     }
 }
 
+/// A look-up batch as handed to `push` (the keys are only copied while the observer is on).
+pub struct PushKeys {
+    n: u64,
+    keys: Vec<u64>,
+}
+
+pub(crate) fn push_keys(keys: &[u64]) -> PushKeys {
+    PushKeys {
+        n: keys.len() as u64,
+        keys: if observe::enabled() {
+            keys.to_vec()
+        } else {
+            Vec::new()
+        },
+    }
+}
+
+/// outcome: 0 kept, 1 dropped (queue full), 2 refused (closed), 3 error (disconnected)
+pub(crate) fn pushed(keys: &dyn PushedKeys, outcome: u8) {
+    let n = keys.count();
+    match outcome {
+        0 => counters::add(&counters::PUSH_KEYS_KEPT, n),
+        _ => counters::add(&counters::PUSH_KEYS_DROPPED, n),
+    }
+    observe::emit(|seq| observe::Ev::Push {
+        seq,
+        keys: keys.keys(),
+        outcome,
+    });
+}
+
+pub(crate) trait PushedKeys {
+    fn count(&self) -> u64;
+    fn keys(&self) -> Vec<u64>;
+}
+impl PushedKeys for PushKeys {
+    fn count(&self) -> u64 {
+        self.n
+    }
+    fn keys(&self) -> Vec<u64> {
+        self.keys.clone()
+    }
+}
+impl PushedKeys for Vec<u64> {
+    fn count(&self) -> u64 {
+        self.len() as u64
+    }
+    fn keys(&self) -> Vec<u64> {
+        self.clone()
+    }
+}
+
+/// Called by the policy worker, under the policy lock, just before it records a batch.
+pub(crate) fn applied(keys: &[u64]) {
+    counters::inc(&counters::POLICY_BATCHES_APPLIED);
+    counters::add(&counters::POLICY_KEYS_APPLIED, keys.len() as u64);
+    observe::emit(|seq| observe::Ev::Applied {
+        seq,
+        keys: keys.to_vec(),
+    });
+}
+
 /// Read-only picture of a cache at one instant.
 #[derive(Debug, Clone, Default)]
 pub struct Snapshot {
